@@ -106,6 +106,38 @@ CHECKS = {
              'schedule) and an unchanged multiset of all other diagnostics (no sibling suppression).',
         note='open mappings have no foreign key; duplicate keys carry a copy of the original value; missing-key verdict is '
              'presence of a "missing" diagnostic, its exact place is model drift only'),
+    'C14': dict(
+        category='model_checking', design_ref='5 (C14), 3.3 Calls',
+        technique='TLA+ spec Calls.tla (declarative Expected(iface, call) vs. transcription of checkAction / '
+                  'checkWorkflowCallUsesLocal / outputs typing and of every metadata derivation) checked by TLC; vectors '
+                  'replayed through materialised local actions, synthetic bundled-table entries and reusable workflows on '
+                  'three forced real paths (file, AST-first, caller-first); the complete bundled data set recorded and '
+                  'validated by TLC (CallsTrace.tla)',
+        text='TLC proves operational = declarative and agreement of the derivations on the bounded declaration/call '
+             'universe; the real linter is bound on all generated vectors and on every entry of PopularActions / '
+             'OutdatedPopularActionSpecs with >= 10 call sites each (2786 records judged by the declarative layer).',
+        note='default: null is read per callee kind (actions: no default; reusable workflows: a default) - see Calls.tla; '
+             'undeclared with.args/with.entrypoint are outside the universe; <= 3 inputs, <= 2 secrets, <= 2 outputs'),
+    'C15': dict(
+        category='model_checking', design_ref='5 (C15), 3.4 Filter, A.9',
+        technique='TLA+ spec Filter.tla (file-system model, declarative filter/applicability/exit-status layer vs. code-like '
+                  'layer) checked by TLC; every run vector (args x cwd x spelling x -ignore x config) replayed by running '
+                  'the built actionlint binary and comparing stdout and exit status with the prediction',
+        text='The run space is enumerated by TLC with the predicted surviving diagnostics (in order) and accepted exit '
+             'statuses; ~6.5k (quick) / 76k (thorough) real process runs are compared, each violation re-run before it is reported.',
+        note='patterns are QuoteMeta fragments so that "matches" is the abstract relation; unreadable file = missing file or '
+             'directory (checks run as root); invalid -ignore regexp accepts exit 2 or 3'),
+    'C16': dict(
+        category='exploration', design_ref='5 (C16), 3.4 Report, 8',
+        technique='TLA+ spec Report.tla (render homomorphism, matcher parse-back model, guard model of the snippet code) '
+                  'checked by TLC; TLC-generated (line, col, source) triples and abstract diagnostic lists replayed into '
+                  'PrettyPrint / GetTemplateFields / formatter; echo-site x hostile-string catalogue linted in 6 output '
+                  'modes, records validated by TLC (ReportTrace.tla) incl. parse-back with the shipped matcher regexp',
+        text='Rendering fidelity is an encode/decode property: the spec contributes the homomorphism, the matcher model and '
+             'the snippet guard model; the harness explores 132 echo sites x 12-17 hostile string classes x 6 modes and '
+             '~56k snippet triples. Level exploration because the diagnostic space is sampled through a catalogue.',
+        note='matcher regexp executed with Go RE2 (JavaScript dialect differences assumed irrelevant); CR counted as a line '
+             'break; shellcheck/pyflakes message texts not in the catalogue'),
 }
 
 REASON_NOT_YET = 'check not built yet in this revision of /verif (planned, see DESIGN.md section 5); not claimed'
